@@ -1,7 +1,7 @@
 (* C20 -- TeamCity output is a balanced, correctly escaped service-message stream.
-   Only statements; proofs are in C20_Escape.v, C20_Parse.v, C20_Proofs.v. *)
+   Only statements; proofs are in C20_Escape.v, C20_Parse.v, C20_Console.v, C20_Proofs.v. *)
 From Coq Require Import NArith Bool List.
-From CppUVerif Require Import lib.Str C16_Events C20_Model C20_Escape C20_Parse C20_Proofs.
+From CppUVerif Require Import lib.Str C16_Events C20_Model C20_Escape C20_Parse C20_Console C20_Proofs.
 Import ListNotations.
 Local Open Scope N_scope.
 
@@ -111,9 +111,9 @@ Print Assumptions C20_flag_iff_ignored_and_not_run.
 
 (* under run-ignored the observation (stream and body executions) of a registry equals that of the same registry with the ignored
    markers removed, for any number of passes; no message of such a run is a testIgnored *)
-Theorem C20_run_ignored_as_unignored : forall dur n fs ts,
-  run {| s_dur := dur; s_ri := true; s_passes := n; s_filters := fs; s_tests := ts |}
-  = run {| s_dur := dur; s_ri := false; s_passes := n; s_filters := fs; s_tests := map unignore ts |}.
+Theorem C20_run_ignored_as_unignored : forall dur n fs ts verb sink,
+  run {| s_dur := dur; s_ri := true; s_passes := n; s_filters := fs; s_tests := ts; s_verb := verb; s_sink := sink |}
+  = run {| s_dur := dur; s_ri := false; s_passes := n; s_filters := fs; s_tests := map unignore ts; s_verb := verb; s_sink := sink |}.
 Proof. exact run_ignored_as_unignored. Qed.
 Print Assumptions C20_run_ignored_as_unignored.
 
@@ -131,9 +131,10 @@ Theorem C20_run_meets_spec_with_text : forall s trailer, valid s = true -> no_ha
 Proof. exact run_meets_spec_text. Qed.
 Print Assumptions C20_run_meets_spec_with_text.
 
-(* spec = the stream parses, the messages are balanced and, with the observed body executions, faithful to the scenario *)
+(* spec = the stream parses (read strictly; a very verbose stream message-anywhere), the messages are balanced and, with the observed
+   body executions, faithful to the scenario *)
 Theorem C20_spec_reads : forall s o, spec s o = true <->
-  exists ms, tc_parse (o_stream o) = Some ms /\ balanced ms = true
+  exists ms, parse_for (s_verb s) (o_stream o) = Some ms /\ balanced ms = true
              /\ faithful (s_ri s) (s_filters s) (pass_groups (s_passes s) (s_tests s)) (o_exec o) ms = true.
 Proof. exact spec_reads. Qed.
 Print Assumptions C20_spec_reads.
@@ -181,6 +182,103 @@ Theorem C20_run_ignored_example :
   /\ spec example_ri late_options_obs = false /\ spec example_no_ri late_options_obs = false.
 Proof. exact example_ri_valid. Qed.
 Print Assumptions C20_run_ignored_example.
+
+(* --------------------------------------------------------------------------------------------------------------
+   The stream the property speaks of is what reaches standard output through the console path the TeamCity output inherits
+   (ConsoleTestOutput::printBuffer -> PlatformSpecificFPuts + PlatformSpecificFlush), piece by piece.
+   -------------------------------------------------------------------------------------------------------------- *)
+(* the pieces handed to printBuffer (one per literal / number, one per character of an escaped value), one after the other, are the
+   printed items *)
+Theorem C20_pieces_concat : forall items, concat (flat_map item_pieces items) = flat_map item_print items.
+Proof. exact pieces_concat. Qed.
+Print Assumptions C20_pieces_concat.
+
+(* ConsoleTestOutput::printBuffer (a write and a flush per piece): what reaches standard output is the pieces one after the other *)
+Theorem C20_console_preserves_stream : forall pieces, written (console pieces) = concat pieces.
+Proof. exact console_written. Qed.
+Print Assumptions C20_console_preserves_stream.
+
+(* so, wherever it is observed (the pieces themselves, the platform seam, the file descriptor), the stream of a run is its items
+   printed one after the other; without -vv that is render_tc of the earlier theorems (-v adds nothing: TeamCityTestOutput overrides
+   the two callbacks in which TestOutput prints test names, times and progress dots) *)
+Theorem C20_run_stream : forall s, o_stream (run s) = flat_map item_print (run_items_of s).
+Proof. exact run_stream. Qed.
+Print Assumptions C20_run_stream.
+
+Theorem C20_run_stream_quiet_or_verbose : forall s, s_verb s <> 2 ->
+  o_stream (run s) = render_tc (s_dur s) (s_ri s) (s_passes s) (s_filters s) (s_tests s).
+Proof. exact run_stream_quiet. Qed.
+Print Assumptions C20_run_stream_quiet_or_verbose.
+
+Theorem C20_sink_independent : forall s k,
+  o_stream (run s) = o_stream (run {| s_dur := s_dur s; s_ri := s_ri s; s_passes := s_passes s; s_filters := s_filters s;
+                                      s_tests := s_tests s; s_verb := s_verb s; s_sink := k |}).
+Proof. exact sink_independent. Qed.
+Print Assumptions C20_sink_independent.
+
+(* the stream of every valid run (followed by any summary text without #) parses back to the messages the property demands of the
+   run: strictly when quiet or verbose, message-anywhere when very verbose *)
+Theorem C20_run_parses_back : forall s trailer, valid s = true -> no_hash trailer = true ->
+  parse_for (s_verb s) (o_stream (run s) ++ trailer) = Some (messages_of (s_dur s) (s_ri s) (s_passes s) (s_filters s) (s_tests s)).
+Proof. exact run_parse_text. Qed.
+Print Assumptions C20_run_parses_back.
+
+(* ANY chunking or buffering of the writes that preserves the concatenation of the pieces - flushes wherever - gives the model's
+   observation, which the oracle accepts; a line buffer of any capacity that keeps every character is one *)
+Theorem C20_any_chunking_accepted : forall s ops, valid s = true -> written ops = concat (run_pieces s) ->
+  {| o_stream := written ops; o_exec := o_exec (run s) |} = run s /\ spec s {| o_stream := written ops; o_exec := o_exec (run s) |} = true.
+Proof. intros s ops Hv E. split; [exact (run_of_chunks s ops E) | exact (spec_any_chunking s ops Hv E)]. Qed.
+Print Assumptions C20_any_chunking_accepted.
+
+Theorem C20_line_buffer_preserves_stream : forall cap pieces, written (linebuf false cap pieces) = concat pieces.
+Proof. exact linebuf_keeps. Qed.
+Print Assumptions C20_line_buffer_preserves_stream.
+
+Theorem C20_line_buffer_run : forall cap s, run_linebuf false cap s = run s.
+Proof. exact run_linebuf_keeps. Qed.
+Print Assumptions C20_line_buffer_run.
+
+(* the line buffer that forgets the character which finds the buffer full (255 usable bytes) violates the property - with a test
+   name of 230 characters - although it is indistinguishable from the code on the runs with short lines *)
+Theorem C20_lossy_line_buffer_refuted : ~ (forall s, valid s = true -> spec s (run_linebuf true 255 s) = true).
+Proof. exact run_lossy_linebuf_refuted. Qed.
+Print Assumptions C20_lossy_line_buffer_refuted.
+
+Theorem C20_lossy_line_buffer_example :
+  run_linebuf true 255 example_run = run example_run /\ run_linebuf true 255 example_ri = run example_ri
+  /\ length (o_stream (run long_name_witness)) = (length (o_stream (run_linebuf true 255 long_name_witness)) + 2)%nat.
+Proof. exact run_lossy_linebuf_short_lines. Qed.
+Print Assumptions C20_lossy_line_buffer_example.
+
+(* very verbose: the progress texts are callbacks of the kind "print" added around the body of a test that is run; they change
+   neither the messages written nor their order *)
+Theorem C20_very_verbose_adds_only_text : forall b es, strip_prints (vv_decorate b es) = strip_prints es.
+Proof. exact (fun b es => strip_vv_decorate es b). Qed.
+Print Assumptions C20_very_verbose_adds_only_text.
+
+Theorem C20_very_verbose_stream : forall dur fs ri n ts trailer, forallb noprint ts = true -> no_hash trailer = true ->
+  tc_parse_any (flat_map item_print (tc_items Esc true dur tc_init (vv_decorate false (passes_events ri fs n ts))) ++ trailer)
+  = Some (messages_of dur ri n fs ts).
+Proof. exact stream_vv. Qed.
+Print Assumptions C20_very_verbose_stream.
+
+(* reading message-anywhere: any sequence of well-formed printed messages and texts without # gives back the messages; and on a
+   stream the strict reading accepts, it returns the same messages *)
+Theorem C20_parse_any_print : forall items trailer, forallb item_ok_any items = true -> no_hash trailer = true ->
+  tc_parse_any (flat_map item_print items ++ trailer) = Some (msgs_of_items items).
+Proof. exact parse_items_any. Qed.
+Print Assumptions C20_parse_any_print.
+
+Theorem C20_parse_any_extends_strict : forall s ms, tc_parse s = Some ms -> tc_parse_any s = Some ms.
+Proof. exact parse_any_extends_strict. Qed.
+Print Assumptions C20_parse_any_extends_strict.
+
+Theorem C20_very_verbose_example :
+  valid example_vv = true /\ spec example_vv (run example_vv) = true /\ tc_parse (o_stream (run example_vv)) = None
+  /\ tc_parse_any (o_stream (run example_vv)) = tc_parse (o_stream (run example_run))
+  /\ Nat.ltb (length (o_stream (run example_run))) (length (o_stream (run example_vv))) = true.
+Proof. exact example_vv_valid. Qed.
+Print Assumptions C20_very_verbose_example.
 
 (* --------------------------------------------------------------------------------------------------------------
    printEscaped as tools/cxx2gal.py regenerates it from TeamCityTestOutput.cpp on every run (gen/Gen_LoopC20.v; the text handed to printBuffer is the ghost output): it emits exactly the model's tc_escape of the C string at its argument, touches no existing block (the result memory is the old one followed by the scratch arrays), stays inside its buffers and terminates within a fuel just above the string length
